@@ -34,21 +34,28 @@ type translator struct {
 	panicMemo  map[*ssa.Function]int // 1 = being computed, 2 = cannot panic, 3 = can panic
 	fuelMemo   map[*ssa.Function]int // 2 = no loop (transitively), 3 = contains a loop or calls a target that does
 	legacy     map[string]bool       // targets of the original ssa2lean (namespace Low.Gen.Ssa, loop-free only)
+	gen2       map[string]bool       // targets of ssa2lean2 (namespace Low.Gen.Ssa2)
+	freshMemo  map[*ssa.Function]int // returnsFresh: 1 = being computed, 2 = yes, 3 = no
+	globalInts map[*ssa.Function][]*ssa.Global
 	tablesOK   map[*ssa.Global]string
 	globalsOK  map[*ssa.Global]string
 	allFuncs   []*ssa.Function
 }
 
-func newTranslator(prog *ssa.Program, pkgs map[string]*ssa.Package, targets []string, legacy []string) *translator {
+func newTranslator(prog *ssa.Program, pkgs map[string]*ssa.Package, targets []string, legacy []string, gen2 []string) *translator {
 	tr := &translator{
 		prog: prog, pkgs: pkgs,
 		byName: map[string]*ssa.Function{}, byFunc: map[*ssa.Function]string{},
 		resolveErr: map[string]string{}, panicMemo: map[*ssa.Function]int{},
 		fuelMemo: map[*ssa.Function]int{}, legacy: map[string]bool{}, tablesOK: map[*ssa.Global]string{},
-		globalsOK: map[*ssa.Global]string{},
+		globalsOK: map[*ssa.Global]string{}, gen2: map[string]bool{}, freshMemo: map[*ssa.Function]int{},
+		globalInts: map[*ssa.Function][]*ssa.Global{},
 	}
 	for _, t := range legacy {
 		tr.legacy[t] = true
+	}
+	for _, t := range gen2 {
+		tr.gen2[t] = true
 	}
 	for _, t := range targets {
 		f, err := tr.resolve(t)
@@ -60,6 +67,17 @@ func newTranslator(prog *ssa.Program, pkgs map[string]*ssa.Package, targets []st
 		tr.byFunc[f] = t
 	}
 	return tr
+}
+
+// genOf: the generation of a target (1 = original ssa2lean, 2 = ssa2lean2, 3 = this tool).
+func (tr *translator) genOf(target string) int {
+	switch {
+	case tr.legacy[target]:
+		return 1
+	case tr.gen2[target]:
+		return 2
+	}
+	return 3
 }
 
 func (tr *translator) resolve(target string) (*ssa.Function, string) {
@@ -138,8 +156,12 @@ func (tr *translator) canPanic(f *ssa.Function) bool {
 	for _, b := range f.Blocks {
 		for _, in := range b.Instrs {
 			switch v := in.(type) {
-			case *ssa.IndexAddr, *ssa.Index, *ssa.Slice, *ssa.Panic:
+			case *ssa.IndexAddr, *ssa.Index, *ssa.Slice, *ssa.Panic, *ssa.MakeSlice:
 				res = true
+			case *ssa.BinOp:
+				if v.Op == token.QUO || v.Op == token.REM {
+					res = true
+				}
 			case *ssa.Call:
 				if callee := v.Call.StaticCallee(); callee != nil {
 					if callee == f {
@@ -456,6 +478,12 @@ func leanType(t types.Type) string {
 		if isIntType(u.Elem()) {
 			return "List " + leanType(u.Elem())
 		}
+		if isBool(u.Elem()) || isString(u.Elem()) {
+			return "List " + paren(leanType(u.Elem()))
+		}
+		if e, ok := u.Elem().Underlying().(*types.Slice); ok && isIntType(e.Elem()) {
+			return "List " + paren(leanType(u.Elem()))
+		}
 	case *types.Tuple:
 		var parts []string
 		for i := 0; i < u.Len(); i++ {
@@ -489,6 +517,7 @@ type fnCtx struct {
 	f       *ssa.Function
 	target  string
 	legacy  bool
+	gen     int  // 1 = original ssa2lean, 2 = ssa2lean2, 3 = this tool
 	option  bool // the Lean definition returns Option
 	fuel    bool // the Lean definition takes `fuel : Nat` first
 	names   map[ssa.Value]string
@@ -497,6 +526,15 @@ type fnCtx struct {
 	used    map[string]bool
 	imports map[string]bool // imported Lean modules (besides GoSem / GoSem2)
 	gosem2  bool            // GoSem2 vocabulary used
+	gosem3  bool            // GoSem3 vocabulary used
+
+	// memory the function allocates itself (memory.go)
+	curp     map[int]string                   // the state (`cur`) of the block being emitted
+	owned    map[ssa.Value]int                // owned value -> class
+	clsRoot  []ssa.Value                      // class -> its first member in program order
+	liveCls  map[*ssa.BasicBlock]map[int]bool // classes live on entry to a block (and not redefined by a phi there)
+	joinView map[*ssa.BasicBlock]map[int]string
+	addrOf   map[*ssa.IndexAddr]ownedAddr
 	topo    map[*ssa.BasicBlock]int
 	resType string
 
@@ -580,13 +618,24 @@ func (c *fnCtx) leanRefOf(tname string) string {
 	if c.legacy {
 		fail("call of %s, a target of ssa2lean2, from a target of the original tool", tname)
 	}
-	c.imports["Generated.Ssa2."+ln] = true
+	if c.tr.gen2[tname] {
+		c.imports["Generated.Ssa2."+ln] = true
+		if c.gen == 2 {
+			return ln
+		}
+		return "Low.Gen.Ssa2." + ln
+	}
+	if c.gen < 3 {
+		fail("call of %s, a target of ssa2lean3, from a target of an earlier tool", tname)
+	}
+	c.imports["Generated.Ssa3."+ln] = true
 	return ln
 }
 
 func (c *fnCtx) run() string {
 	f := c.f
 	c.legacy = c.tr.legacy[c.target]
+	c.gen = c.tr.genOf(c.target)
 	c.body = &strings.Builder{}
 	c.extField = -1
 	if len(f.Blocks) == 0 {
@@ -601,13 +650,14 @@ func (c *fnCtx) run() string {
 	if len(f.AnonFuncs) > 0 && c.legacy {
 		fail("closures")
 	}
-	if f.Signature.Variadic() {
+	if f.Signature.Variadic() && c.gen < 3 {
 		fail("variadic function")
 	}
 	if f.TypeParams().Len() > 0 {
 		fail("generic function")
 	}
 	c.analyseCFG()
+	c.analyseMemory()
 	c.fuel = c.tr.needsFuel(f)
 	c.option = c.tr.canPanic(f) || c.fuel
 	if !c.legacy {
@@ -668,14 +718,14 @@ func (c *fnCtx) run() string {
 
 	// assemble the file
 	leanName := leanNameOf(c.target)
-	tool, ns, tie := "tools/ssa2lean2", "Low.Gen.Ssa2", "LowProofs/Tie2"
-	if c.legacy {
-		tool, ns, tie = "tools/ssa2lean", "Low.Gen.Ssa", "LowProofs/Tie"
-	}
+	tool, ns, tie := genNames(c.gen)
 	var out strings.Builder
 	out.WriteString("import LowModel.GoSem\n")
 	if c.gosem2 {
 		out.WriteString("import LowModel.GoSem2\n")
+	}
+	if c.gosem3 {
+		out.WriteString("import LowModel.GoSem3\n")
 	}
 	var imps []string
 	for i := range c.imports {
@@ -842,6 +892,9 @@ func (c *fnCtx) scanCells() {
 			if c.legacy {
 				fail("instruction %T: %s", in, in)
 			}
+			if _, isArr := isArrayPtr(a.Type()); isArr && c.gen >= 3 {
+				continue // memory the function allocates itself (memory.go)
+			}
 			var store *ssa.Store
 			var loads []*ssa.UnOp
 			for _, r := range *a.Referrers() {
@@ -993,6 +1046,14 @@ func (c *fnCtx) setupReceiver(p *ssa.Parameter) {
 	for k := 0; k < st.NumFields(); k++ {
 		ft := st.Field(k).Type()
 		supported := isIntType(ft) || isBool(ft)
+		if _, isSlice := ft.Underlying().(*types.Slice); isSlice && c.gen >= 3 && !storedSet[k] {
+			// a slice held by the receiver that the method only reads (through it: checked like a parameter)
+			func() {
+				defer func() { recover() }()
+				leanType(ft)
+				supported = true
+			}()
+		}
 		if !supported {
 			if accessed[k] {
 				if !c.legacy && ft.String() == "io.WriterAt" && !storedSet[k] && c.extField < 0 {
@@ -1120,6 +1181,9 @@ func (c *fnCtx) emitBlock(b *ssa.BasicBlock, ind int, curIn map[int]string) {
 	for k, v := range curIn {
 		cur[k] = v
 	}
+	savedCur := c.curp
+	c.curp = cur
+	defer func() { c.curp = savedCur }()
 	n := len(b.Instrs)
 	if n == 0 {
 		fail("empty block %d", b.Index)
@@ -1166,6 +1230,38 @@ func (c *fnCtx) emitBlock(b *ssa.BasicBlock, ind int, curIn map[int]string) {
 			binders = append(binders, fmt.Sprintf("(%s : %s)", phi.Name(), t))
 			pats = append(pats, phi.Name())
 		}
+		// memory the function allocated: the classes that are dead here are dropped, a phi of a class is its
+		// current view from here on, the other live classes arrive as hidden parameters
+		for k := range jcur {
+			if k >= memBase {
+				delete(jcur, k)
+			}
+		}
+		for _, in := range j.Instrs {
+			phi, ok := in.(*ssa.Phi)
+			if !ok {
+				break
+			}
+			if cls, isOwned := c.owned[phi]; isOwned {
+				jcur[memKey(cls)] = phi.Name()
+				jcur[viewKey(cls)] = phi.Name()
+			}
+		}
+		c.joinView[j] = map[int]string{}
+		for _, cls := range c.hiddenAt(j) {
+			view, ok := cur[viewKey(cls)]
+			if !ok {
+				fail("the memory of %s is live at block %d but not allocated on every path to it", c.clsRoot[cls].Name(), j.Index)
+			}
+			t := c.clsType(cls)
+			name := fmt.Sprintf("%s_b%d", c.clsRoot[cls].Name(), j.Index)
+			c.joinView[j][cls] = view
+			jcur[memKey(cls)] = name
+			jcur[viewKey(cls)] = view
+			ptypes = append(ptypes, paren(t))
+			binders = append(binders, fmt.Sprintf("(%s : %s)", name, t))
+			pats = append(pats, name)
+		}
 		for _, k := range c.stored {
 			t := c.storedType(k)
 			name := fmt.Sprintf("%s_b%d", c.storedBase(k), j.Index)
@@ -1196,15 +1292,23 @@ func (c *fnCtx) emitBlock(b *ssa.BasicBlock, ind int, curIn map[int]string) {
 			decls = append(decls, fmt.Sprintf("(%s : %s)", c.defined[v], c.defType[v]))
 			args = append(args, c.defined[v])
 		}
+		callArgs := append([]string{}, args...) // at the place where the loop is entered
 		for _, o := range outs {
 			jt, ok := c.joinType[o]
 			if !ok {
 				fail("loop at block %d exits to block %d, which is not in scope", j.Index, o.Index)
 			}
-			if c.isLoop[o] {
+			if c.isLoop[o] && c.gen < 3 {
 				fail("nested loops (block %d inside the loop at block %d)", j.Index, o.Index)
 			}
 			decls = append(decls, fmt.Sprintf("(blk%d : %s)", o.Index, jt))
+			if len(c.inLoop) > 0 && c.inLoop[len(c.inLoop)-1] == o {
+				// NESTED LOOP: the loop being defined here is inside the loop at block o, whose definition is the one
+				// being emitted: the back edge to o is passed as the continuation `f_loop<o> … gas`
+				callArgs = append(callArgs, fmt.Sprintf("(%s gas)", c.loopPrefix[o]))
+			} else {
+				callArgs = append(callArgs, fmt.Sprintf("blk%d", o.Index))
+			}
 			args = append(args, fmt.Sprintf("blk%d", o.Index))
 		}
 		prefix := name + " " + strings.Join(args, " ")
@@ -1223,7 +1327,7 @@ func (c *fnCtx) emitBlock(b *ssa.BasicBlock, ind int, curIn map[int]string) {
 		c.inLoop = c.inLoop[:len(c.inLoop)-1]
 		c.defs = append(c.defs, c.body.String())
 		c.body = saved
-		c.line(ind, "let blk%d : %s := (fun %s => %s fuel %s);", j.Index, jt, strings.Join(binders, " "), prefix, strings.Join(pats, " "))
+		c.line(ind, "let blk%d : %s := (fun %s => %s fuel %s);", j.Index, jt, strings.Join(binders, " "), name+" "+strings.Join(callArgs, " "), strings.Join(pats, " "))
 	}
 
 	switch t := b.Instrs[n-1].(type) {
@@ -1341,6 +1445,17 @@ func (c *fnCtx) emitGoto(from *ssa.BasicBlock, succ int, ind int, cur map[int]st
 		}
 		args = append(args, c.operand(phi.Edges[edge]))
 	}
+	for _, cls := range c.hiddenAt(to) {
+		view, ok := cur[viewKey(cls)]
+		if !ok {
+			fail("the memory of %s is live at block %d but not allocated on the path through block %d", c.clsRoot[cls].Name(), to.Index, from.Index)
+		}
+		if want := c.joinView[to][cls]; view != want {
+			fail("at the edge from block %d to block %d the current view of the memory of %s is %s, but %s is used afterwards (two live views)",
+				from.Index, to.Index, c.clsRoot[cls].Name(), view, want)
+		}
+		args = append(args, cur[memKey(cls)])
+	}
 	for _, k := range c.stored {
 		args = append(args, paren(cur[k]))
 	}
@@ -1350,7 +1465,22 @@ func (c *fnCtx) emitGoto(from *ssa.BasicBlock, succ int, ind int, cur map[int]st
 	if to.Dominates(from) {
 		// back edge: the recursive call, one unit of fuel less
 		if len(c.inLoop) == 0 || c.inLoop[len(c.inLoop)-1] != to {
-			fail("nested loops (back edge from block %d to block %d inside another loop)", from.Index, to.Index)
+			if c.gen < 3 {
+				fail("nested loops (back edge from block %d to block %d inside another loop)", from.Index, to.Index)
+			}
+			// NESTED LOOP: this code is inside the definition of an inner loop; the outer loop's continuation was
+			// passed in as `blk<to>`
+			enclosing := false
+			for _, h := range c.inLoop {
+				if h == to {
+					enclosing = true
+				}
+			}
+			if !enclosing {
+				fail("back edge from block %d to block %d, which is not an enclosing loop", from.Index, to.Index)
+			}
+			c.line(ind, "blk%d %s", to.Index, strings.Join(args, " "))
+			return
 		}
 		c.line(ind, "%s gas %s", c.loopPrefix[to], strings.Join(args, " "))
 		return
@@ -1377,6 +1507,8 @@ func (c *fnCtx) constant(k *ssa.Const) string {
 			fail("non-nil error constant")
 		}
 		return "(none : GoSem.Err)"
+	case isSliceType(t) && k.Value == nil && c.gen >= 3:
+		return "([] : " + leanType(t) + ")"
 	case isIntType(t):
 		if k.Value == nil {
 			fail("bad integer constant")
@@ -1414,6 +1546,9 @@ func (c *fnCtx) operand(v ssa.Value) string {
 		fail("unknown parameter %s", x.Name())
 	case *ssa.Global, *ssa.Function, *ssa.Builtin, *ssa.FreeVar:
 		fail("unsupported operand %s", v)
+	}
+	if _, isOwned := c.owned[v]; isOwned {
+		return c.readOwned(v)
 	}
 	if n, ok := c.defined[v]; ok {
 		return n
@@ -1536,6 +1671,9 @@ func onlyFeedsNoop(v ssa.Value) bool {
 }
 
 func (c *fnCtx) emitInstr(in ssa.Instruction, ind int, cur map[int]string) {
+	if c.gen >= 3 && c.emitMem(in, ind, cur) {
+		return
+	}
 	switch v := in.(type) {
 	case *ssa.DebugRef:
 		return
@@ -1922,6 +2060,10 @@ func (c *fnCtx) emitCall(v *ssa.Call, ind int, cur map[int]string) {
 		for _, a := range callArgs {
 			leanType(a.Type())
 			args = append(args, c.operand(a))
+		}
+		if c.gen >= 3 && hasSliceResult(v.Type()) && !c.tr.returnsFresh(callee) {
+			// the result is treated as a value of its own: it must not share memory with an argument
+			fail("call of %s, which returns a slice it did not allocate", callee.Name())
 		}
 		expr := c.leanRefOf(tname) + " " + strings.Join(args, " ")
 		if c.tr.canPanic(callee) || c.tr.needsFuel(callee) {
